@@ -22,6 +22,7 @@ import DS.Model.Lattice
 import DS.Model.Expand
 import DS.Model.CifRow
 import DS.Model.Rx
+import DS.Model.CifSym
 /-!
 Line-protocol driver: one operation per input line, one canonical result line per operation.
 Used by the correspondence checks (harness/*.py).  No Mathlib import anywhere below this file.
@@ -301,6 +302,7 @@ def handlers : List (List String → Option String) :=
   , DS.Column.columnHandle
   , DS.CifRow.cifrowHandle
   , DS.Rx.rxHandle
+  , DS.CifSym.cifsymHandle
   ]
 
 def handle (ws : List String) : String :=
